@@ -326,10 +326,15 @@ func mutInterval(s string, a Anno) (lo, hi int, err error) {
 	if err != nil {
 		return 0, 0, err
 	}
+	// several features may carry one name (two products of one gene): the span over all of them that have such a codon
+	found := false
 	for _, ft := range a.Feats {
 		if ft.Name == f[1] && k >= 1 && k <= ft.nCodons() {
 			cp := ft.codingPositions()[3*(k-1) : 3*k]
-			lo, hi = cp[0], cp[0]
+			if !found {
+				lo, hi = cp[0], cp[0]
+			}
+			found = true
 			for _, p := range cp {
 				if p < lo {
 					lo = p
@@ -338,8 +343,10 @@ func mutInterval(s string, a Anno) (lo, hi int, err error) {
 					hi = p
 				}
 			}
-			return lo, hi, nil
 		}
+	}
+	if found {
+		return lo, hi, nil
 	}
 	return 0, 0, fmt.Errorf("aa record %q names no feature/codon of the annotation", s)
 }
